@@ -183,6 +183,9 @@ def _reanalyze(a, style):
     """One full analysis on an EXISTING analyzer object (the two documented routes)."""
     if style == 0:
         a.compute_crn_deficiency()
+    elif style == 2:                          # the summary stage re-run; the front end computes whatever is missing
+        a.compute_summary()
+        a.run_deficiency_one_algorithm()
     else:
         a.compute_summary()
         a.compute_linkage_deficiencies()
@@ -374,8 +377,8 @@ def coq_case(case):
         for rxns, iso in ADV.apply_edits2(case["rxns"], case["edits"], case.get("iso", [])):
             a = _coq_args(dict(rxns=rxns, iso=iso, view="hyper"))
             st = "(%s)" % ", ".join(_split_args(a))
-            steps += [st, st]                            # re-used analyzer and brand-new analyzer: same answer
-        return "run19_hist %s" % clist(steps)
+            steps.append("(%s, %s)" % (cnat(case.get("style", 0)), st))
+        return "run19_sm %s" % clist(steps)          # the staged state machine: per step re-used analyzer (route = style), new analyzer
     return "run19 " + _coq_args(case)
 
 
